@@ -8,7 +8,8 @@ from propbase import KERNEL, HARNESS
 REQUIRED_TAGS = ["exact_fit_view=true", "exact_fit_height=true", "height_cut=true", "chained_view=true", "layout_position=nonzero",
                  "clipped=true", "view=transposed", "view=strided", "invalid_scalar_bytes=true", "set_cursor=true", "session=true",
                  "put_text=true", "tty=true", "multi_chunk=true", "kind=json_text", "json_glyph_with_text=true", "str_view=true",
-                 "wraps=false", "glyphs=false"]
+                 "wraps=false", "glyphs=false", "builder_form=true", "scope=true", "put_image=true", "write_entry=write_all",
+                 "write_entry=vectored", "write_entry=fmt", "write_entry=flush", "fixed_sgr_split=true"]
 
 
 def require_reach(ctx):
@@ -25,8 +26,122 @@ def require_reach(ctx):
     return {"violations": violations, "coverage": cov}
 
 
+API_FILES = ["src/render.rs", "src/view/text.rs"]
+API_HEADS = ["CellWrite", "TerminalWriter", "Utf8CellWriter", "TTYCellWriter", "Text", "Write for"]
+API_IMPLS_ONLY = False
+API_KNOWN = [
+    "impl CellWrite for TerminalWriter<'_> :: face",
+    "impl CellWrite for TerminalWriter<'_> :: put_cell",
+    "impl CellWrite for TerminalWriter<'_> :: set_face",
+    "impl CellWrite for TerminalWriter<'_> :: set_wraps",
+    "impl CellWrite for TerminalWriter<'_> :: wraps",
+    "impl CellWrite for Text :: face",
+    "impl CellWrite for Text :: put_cell",
+    "impl CellWrite for Text :: set_face",
+    "impl CellWrite for Text :: set_wraps",
+    "impl CellWrite for Text :: wraps",
+    "impl FromIterator<Cell> for Text :: from_iter",
+    "impl Text :: cells",
+    "impl Text :: clear",
+    "impl Text :: is_empty",
+    "impl Text :: len",
+    "impl Text :: mark",
+    "impl Text :: new",
+    "impl Text :: take",
+    "impl View for Text :: layout",
+    "impl View for Text :: render",
+    "impl std::fmt::Write for Text :: write_str",
+    "impl std::io::Write for TerminalWriter<'_> :: flush",
+    "impl std::io::Write for TerminalWriter<'_> :: write",
+    "impl<'a> From<&'a str> for Text :: from",
+    "impl<'a> TerminalWriter<'a> :: cursor",
+    "impl<'a> TerminalWriter<'a> :: new",
+    "impl<'a> TerminalWriter<'a> :: set_cursor",
+    "impl<'a> TerminalWriter<'a> :: size",
+    "impl<'de> Deserialize<'de> for Text :: deserialize",
+    "impl<'de> DeserializeSeed<'de> for TextDeserializer<'_> :: deserialize",
+    "impl<W: CellWrite + ?Sized> CellWrite for &mut W :: face",
+    "impl<W: CellWrite + ?Sized> CellWrite for &mut W :: put_cell",
+    "impl<W: CellWrite + ?Sized> CellWrite for &mut W :: set_face",
+    "impl<W: CellWrite + ?Sized> CellWrite for &mut W :: set_wraps",
+    "impl<W: CellWrite + ?Sized> CellWrite for &mut W :: wraps",
+    "impl<W: Write> Write for TerminalDebug<W> :: flush",
+    "impl<W: Write> Write for TerminalDebug<W> :: write",
+    "impl<W> TTYCellWriter<W> :: parent",
+    "impl<W> Utf8CellWriter<W> :: parent",
+    "impl<W> std::io::Write for TTYCellWriter<W> where W: CellWrite, :: flush",
+    "impl<W> std::io::Write for TTYCellWriter<W> where W: CellWrite, :: write",
+    "impl<W> std::io::Write for Utf8CellWriter<W> where W: CellWrite, :: flush",
+    "impl<W> std::io::Write for Utf8CellWriter<W> where W: CellWrite, :: write",
+    "trait CellWrite :: by_ref",
+    "trait CellWrite :: face",
+    "trait CellWrite :: put_cell",
+    "trait CellWrite :: put_char",
+    "trait CellWrite :: put_fmt",
+    "trait CellWrite :: put_glyph",
+    "trait CellWrite :: put_image",
+    "trait CellWrite :: put_text",
+    "trait CellWrite :: scope",
+    "trait CellWrite :: set_face",
+    "trait CellWrite :: set_wraps",
+    "trait CellWrite :: tty_writer",
+    "trait CellWrite :: utf8_writer",
+    "trait CellWrite :: with_cell",
+    "trait CellWrite :: with_char",
+    "trait CellWrite :: with_face",
+    "trait CellWrite :: with_fmt",
+    "trait CellWrite :: with_glyph",
+    "trait CellWrite :: with_image",
+    "trait CellWrite :: with_text",
+    "trait CellWrite :: with_wraps",
+    "trait CellWrite :: wraps",
+]
+
+
+def _impl_blocks(text):
+    """(header, [fn names]) of every impl block outside the tests module"""
+    import re
+    cut = text.find("#[cfg(test)]\nmod tests")
+    if cut > 0:
+        text = text[:cut]
+    out = []
+    for m in re.finditer(r"\n(?:pub )?(impl|trait)\b([^{;]*)\{", text):
+        head = " ".join((m.group(1) + m.group(2)).split())
+        i, depth = m.end(), 1
+        while depth and i < len(text):
+            depth += (text[i] == "{") - (text[i] == "}")
+            i += 1
+        out.append((head, re.findall(r"\n    (?:pub )?fn (\w+)", text[m.end():i])))
+    return out
+
+
+def api_surface(ctx):
+    """the methods / impls of the property's domain as they are in the source now, against the list the harness and the
+    model were written for: a method or impl that appears (an overridden write_all, a new view type ...) is reported"""
+    found = set()
+    for f in API_FILES:
+        try:
+            text = open(os.path.join(ctx["repo"], f)).read()
+        except OSError:
+            continue
+        for head, fns in _impl_blocks(text):
+            if not any(k in head for k in API_HEADS):
+                continue
+            if API_IMPLS_ONLY:
+                found.add(head)
+            else:
+                for fn in fns:
+                    found.add(head + " :: " + fn)
+    new = sorted(found - set(API_KNOWN))
+    violations = []
+    if new:
+        violations.append({"kind": "broken-correspondence",
+                           "what": "API surface of the property's domain not covered by harness and model: %s" % "; ".join(new), "case": {}})
+    return {"violations": violations, "coverage": {"api_items_checked": len(found)}}
+
+
 PROP = {'gen': [],
- 'extra': [require_reach],
+ 'extra': [require_reach, api_surface],
  'coq_props': ['theories/Props/C09.vo'],
  'coq_corr': ['theories/Corr/C09Corr.vo'],
  'props_file': 'theories/Props/C09.v',
